@@ -1197,8 +1197,20 @@ def cause_of(ev, err):
     return f"{ENTRY[ev['op']].split('.')[1]}|{cls}: {msg}"
 
 
-def nv_close(a, b, live):
-    return close(a, b, REL_FLOAT if live else Fraction(1, 10 ** 28), Fraction(1, 10 ** 20))
+def nv_close(a, b, live, gross=Fraction(0)):
+    """a net value is a difference of gross legs (collateral - debt): in the float (live TWAP) pipeline the rounding error scales
+    with the legs, not with their difference, so the 1e-9 relative tolerance is applied to the gross size as well"""
+    return close(a, b, REL_FLOAT if live else Fraction(1, 10 ** 28), Fraction(1, 10 ** 20) + (REL_FLOAT * gross if live else 0))
+
+
+def gross_of(st, sym):
+    """gross size of the Squeeth legs of a state in USD: collateral and debt (at index and at mark) of every vault"""
+    row = ROWS[sym - 1]
+    eth, nf, sq = Fraction(row["eth"]), Fraction(row["nf"]), Fraction(row["sq"])
+    g = Fraction(0)
+    for v in st["vaults"]:
+        g += v["coll"] * eth + v["short"] * nf * eth * eth / 10000 + v["short"] * sq * eth
+    return g
 
 
 def c01_compare(col: Col, owner, W: World, node, sym, live, where, mk_replay, nv_spec=None):
@@ -1210,9 +1222,10 @@ def c01_compare(col: Col, owner, W: World, node, sym, live, where, mk_replay, nv
     lent = any(v["lp"] for v in node["st"]["vaults"])
     scen = ("lp_in_vault" if lent else "lp_redeemed" if "gone" in node["st"]["lps"] else "lp_in_pool") + ("/live" if live else "")
     names = {"net": "net_value", "asset": "asset_value", "uni": "uniswap_market_net_value", "sq": "squeeth_market_net_value"}
+    gross = gross_of(node["st"], sym)
     for k in ("asset", "uni", "sq", "net"):
         col.count(f"C01/squeeth/{names[k]}")
-        if not nv_close(got[k], want[k], live):
+        if not nv_close(got[k], want[k], live, gross if k in ("sq", "net") else Fraction(0)):
             ent = {"net": "Broker.get_account_status", "asset": "Broker.get_account_status", "uni": "UniLpMarket.get_market_balance",
                    "sq": "SqueethMarket.get_market_balance"}[k]
             col.violation(f"{ent}|{names[k]}|{scen}",
@@ -1443,6 +1456,20 @@ def work_cross_live(args):
         if len(states) > 1:
             replay_cross_live(col, owner, states, ctx)
     return col
+
+
+def replay_cross(chk: Check, r: dict):
+    """Re-run one stored cross-leg path (kind cross_exact / cross_live) against the working tree; no chk.finish()."""
+    states = unjson(r["states"])
+    ctx, col = Ctx(lp_table(), r["nk"]), Col()
+    _chdir_scratch(str(chk.tmp / "cwd"))
+    if r["kind"] == "cross_exact":
+        replay_cross_exact(col, r["owner"], list(states), ctx, set(), None)
+    else:
+        replay_cross_live(col, r["owner"], list(states), ctx)
+    os.chdir(str(VERIF))
+    col.notes.pop("causes", None)
+    col.merge_into(chk)
 
 
 CROSS_DEVS = {"C04": {"DepositCreditsFirst": "P_C04_Intact", "BurnKeptOnReject": "P_C04_Intact"},
